@@ -245,7 +245,9 @@ def run_recurse(chk, asan_impl, drv, ncases):
     for (ent, qs), (rci, out) in zip(cases, res):
         rep = san_report(out)
         if rep or rci != 0:
-            chk.violation("recursion/memory-safety", "evaluation of a generated field graph misbehaves: " + (rep or out[-300:])[:600],
+            chk.violation("recursion/hang" if rci in (-14, 142, 124) else "recursion/memory-safety",
+                          ("an evaluator does not return within 30 s on a generated field graph (the last line shows how far it got): " if rci in (-14, 142, 124) else
+                           "evaluation of a generated field graph misbehaves: ") + (rep or out[-300:])[:600],
                           {"kind": "impl-vs-spec", "db": ent, "queries": qs, "output": out[-1500:]})
             k += len(qs)
             continue
@@ -282,6 +284,18 @@ def run_recurse(chk, asan_impl, drv, ncases):
                 elif e != want_e:
                     chk.violation("recursion/model-" + nm, "correspondence broken: gd_%s on %s: error %d, model says %s" % (nm, case["query"], e, me),
                                   dict(case, kind="model-vs-impl", correspondence="C05 eval_top vs gd_%s64" % nm, impl=lines[qi], model=m), found=False)
+            if len(lines[qi]) >= 12:
+                more = dict(zip(("seek", "tell", "native_type", "raw_close", "sync"), map(int, lines[qi][6:11])))
+                lvl2 = int(lines[qi][11])
+                if lvl2 != 0:
+                    chk.violation("recursion/counter", "recursion counter not back to 0 after gd_seek/gd_tell/gd_native_type/gd_raw_close/gd_sync (%d)" % lvl2,
+                                  dict(case, kind="impl-vs-spec", impl=lines[qi]))
+                for nm, e in more.items():
+                    # gd_tell may legitimately meet inputs that disagree on their position (GD_E_DOMAIN) before it meets the cycle
+                    okset = (0, GD_E_RECURSE_LEVEL) + ((errcode("GD_E_ACCMODE", -3),) if nm == "sync" else ()) + ((errcode("GD_E_DOMAIN", -28),) if nm == "tell" else ())
+                    if e not in okset or (cyc and e == 0):
+                        chk.violation("recursion/" + nm, "gd_%s on %s returned error %d%s" % (nm, case["query"], e, " although a circular definition is reachable" if cyc else ""),
+                                      dict(case, kind="impl-vs-spec", impl=lines[qi]))
             if e_spf not in (0, GD_E_RECURSE_LEVEL) or (me == "Ok" and e_spf != 0):
                 chk.violation("recursion/spf", "gd_spf on %s returned error %d" % (case["query"], e_spf), dict(case, kind="impl-vs-spec", impl=lines[qi]))
     chk.sample({"stream": "recursion", "db": cases[0][0], "queries": cases[0][1]})
